@@ -168,7 +168,7 @@ def reader_table(facts, rep, rule, fn, record, spec, codec=None, skip=0, adt_re=
                 if want == "-" or fdef["name"] in relax:
                     continue
                 if want == "sig":
-                    okc = any(r[0] == "cmp" and r[1][0] == "named" and r[1][1].endswith(rec["signature"]) for r in rl) or \
+                    okc = any(r[0] == "cmp" and r[1][0] == "const" and r[1][2] == spec["signatures"][rec["signature"]] for r in rl) or \
                         any(r[0] == "switch" and spec["signatures"][rec["signature"]] in r[1] for r in rl)
                     if not okc:
                         missing.append("compared with %s" % rec["signature"])
